@@ -255,7 +255,18 @@ func c03Others(c *Collector, r *Rng, keys []realKey, thorough bool) {
 				case *cose.Signature:
 					verdict("parent-kind-signature-to-countersignature", &cose.Countersignature{Headers: p.Headers, Signature: p.Signature}, cs.Headers, cs.Signature, ext, k)
 				case *cose.Sign1Message:
-					verdict("parent-kind-sign1-to-sign", &cose.SignMessage{Headers: p.Headers, Payload: p.Payload, Signatures: []*cose.Signature{{Signature: []byte{1}}}}, cs.Headers, cs.Signature, ext, k)
+					asSign := &cose.SignMessage{Headers: p.Headers, Payload: p.Payload, Signatures: []*cose.Signature{{Signature: []byte{1}}}}
+					verdict("parent-kind-sign1-to-sign", asSign, cs.Headers, cs.Signature, ext, k)
+					// the other direction: a countersignature honestly made over a COSE_Sign with the same protected
+					// bytes and payload (the RFC 8152 structure without other_fields), offered for the COSE_Sign1
+					cs2 := cose.NewCountersignature()
+					cs2.Headers.Protected.SetAlgorithm(k.alg)
+					if err := cs2.Sign(r, k.signer(), asSign, ext); err == nil {
+						verdict("made-over-cose-sign-offered-for-sign1", par.val, cs2.Headers, cs2.Signature, ext, k)
+					}
+					if s0, err := cose.Countersign0(r, k.signer(), asSign, ext); err == nil {
+						verdict("abbreviated-made-over-cose-sign-offered-for-sign1", par.val, cs.Headers, s0, ext, k)
+					}
 				}
 			}
 		}
